@@ -149,6 +149,9 @@ BROKEN = [
     ("toml-syntax", "REUSE.toml", 'version = 1\n[[annotations]\npath = "**"\n'),
     ("toml-syntax-unterminated", "REUSE.toml", 'version = 1\n[[annotations]]\npath = "**\n'),
     ("toml-duplicate-key", "REUSE.toml", 'version = 1\nversion = 2\n'),
+    ("toml-duplicate-key-in-table", "REUSE.toml", 'version = 1\n[[annotations]]\npath = "a"\npath = "b"\nSPDX-License-Identifier = "MIT"\n'),
+    ("toml-duplicate-key-inline", "REUSE.toml", 'version = 1\nannotations = [{path = "a", path = "b", SPDX-License-Identifier = "MIT"}]\n'),
+    ("toml-key-redefined-as-table", "REUSE.toml", 'version = 1\n[extra]\nb = 1\n[extra.b]\nc = 2\n'),
     ("toml-invalid-utf8", "REUSE.toml", 'version = 1\n[[annotations]]\npath = "\udcff\udcfe"\nSPDX-License-Identifier = "MIT"\n'),
     ("toml-nul", "REUSE.toml", 'version = 1\x00\n'),
     ("toml-empty", "REUSE.toml", ""),
@@ -170,7 +173,8 @@ BROKEN = [
     ("dep5-missing-license", ".reuse/dep5", "Format: https://www.debian.org/doc/packaging-manuals/copyright-format/1.0/\n\nFiles: *\nCopyright: 2020 X\n"),
 ]
 # syntactically broken / undecodable / conflicting: must be exit 2 and name the file
-MUST_BE_2 = {"toml-syntax", "toml-syntax-unterminated", "toml-duplicate-key", "toml-invalid-utf8", "toml-nested-broken",
+MUST_BE_2 = {"toml-syntax", "toml-syntax-unterminated", "toml-duplicate-key", "toml-duplicate-key-in-table", "toml-duplicate-key-inline",
+             "toml-key-redefined-as-table", "toml-invalid-utf8", "toml-nested-broken",
              "toml-nested-invalid-utf8", "dep5-syntax", "dep5-garbage", "dep5-invalid-utf8", "conflict", "conflict-nested"}
 
 WEIRD = [
